@@ -263,6 +263,13 @@ def run(case):
     if bc is not None:
         for i in range(npos):
             per_pos_args[i][bc] = per_pos_args[0][bc]
+            if kind in ("join_ll3", "meet_ll3") and i > 0:
+                # two lines of 3-space must stay coplanar: the line of position i passes through a point of the fixed line
+                _, fp, fq = per_pos_args[0][bc]
+                base = [C.exact_vec(v, cplx) for v in case["elems"][i]]
+                a, b = [Fraction(x) for x in case["coefs"][i]]
+                on = [a * x + b * y for x, y in zip(fp, fq)]
+                per_pos_args[i][1 - bc] = ("L", on, base[2])
     for i in range(npos):
         r = exact_result(kind, per_pos_args[i], n)
         if r is None:
